@@ -190,6 +190,15 @@ func runC17(r *Run, rng *rand.Rand, thorough bool) {
 				r.Assert(!a.Equals(neg) && !neg.Equals(a), "ECPoint.Equals/inverse", "point-differs-from-its-inverse", func() string { return ePoint(a) + " vs " + ePoint(neg) })
 				r.Assert(!a.Equals(b) || k1.Cmp(k2) == 0, "ECPoint.Equals/other", "different-points-differ", nil)
 				r.Assert(!a.Equals(nil), "ECPoint.Equals/nil", "nil-is-not-equal", nil)
+				// P + (−P): the identity, which secp256k1 points cannot represent (an error) and edwards can ((0,1))
+				sum, errN := a.Add(neg)
+				if tag == "ed" {
+					r.Assert(errN == nil && sum != nil && sum.X().Sign() == 0 && sum.Y().Cmp(bi(1)) == 0, "ECPoint.Add/inverse", "P+(-P)=identity", func() string { return ePoint(a) })
+				} else {
+					r.Assert(errN != nil, "ECPoint.Add/inverse", "P+(-P)-is-refused-on-secp256k1", func() string { return ePoint(a) + " -> " + ePoint(sum) })
+				}
+				dbl, errD := a.Add(same)
+				r.Assert(errD == nil && dbl.Equals(a.ScalarMult(bi(2))), "ECPoint.Add/double", "P+P=2P", nil)
 			}
 		}
 		// doors: constructor with off-curve / non-canonical coordinates
